@@ -609,8 +609,8 @@ unsafe impl Kernel<u8, i8, i32> for Avx2Int8Kernel {
         depth: usize,
         _alpha: f32,
         beta: i32,
-        _a_quant: Option<QuantParams<u8>>,
-        _b_quant: Option<QuantParams<i8>>,
+        a_quant: Option<QuantParams<u8>>,
+        b_quant: Option<QuantParams<i8>>,
     ) {
         let a_data = match a {
             Lhs::Packed(data) => data,
@@ -619,6 +619,13 @@ unsafe impl Kernel<u8, i8, i32> for Avx2Int8Kernel {
 
         let (a_data, a_meta) = packing::int8::extract_packed_a::<{ Self::MR }>(a_data);
         let (b, b_meta) = packing::int8::extract_packed_b::<{ Self::NR }>(b);
+
+        // Zero points given for this call take precedence over those stored
+        // when packing, as prepacked inputs are packed without them.
+        let a_zero_points =
+            packing::int8::tile_a_zero_points(a_quant.map(|q| q.zero_point), a_meta);
+        let b_zero_points =
+            packing::int8::tile_b_zero_points(b_quant.map(|q| q.zero_point), b_meta);
 
         const NR_REGS: usize = Avx2Int8Kernel::NR / AVX2_X32_LANES;
         simd_int8_gemm::<_, _, { Self::MR }, { Self::NR }, NR_REGS>(
@@ -631,8 +638,8 @@ unsafe impl Kernel<u8, i8, i32> for Avx2Int8Kernel {
             used_cols,
             depth,
             beta != 0, // accumulate
-            a_meta.zero_points,
-            b_meta.zero_points,
+            a_zero_points,
+            b_zero_points,
             &a_meta.row_sums,
             &b_meta.col_sums,
             self.isa,
@@ -841,8 +848,8 @@ unsafe impl Kernel<u8, i8, i32> for Avx512Int8Kernel {
         depth: usize,
         _alpha: f32,
         beta: i32,
-        _a_quant: Option<QuantParams<u8>>,
-        _b_quant: Option<QuantParams<i8>>,
+        a_quant: Option<QuantParams<u8>>,
+        b_quant: Option<QuantParams<i8>>,
     ) {
         let a_data = match a {
             Lhs::Packed(data) => data,
@@ -851,6 +858,13 @@ unsafe impl Kernel<u8, i8, i32> for Avx512Int8Kernel {
 
         let (a_data, a_meta) = packing::int8::extract_packed_a::<{ Self::MR }>(a_data);
         let (b, b_meta) = packing::int8::extract_packed_b::<{ Self::NR }>(b);
+
+        // Zero points given for this call take precedence over those stored
+        // when packing, as prepacked inputs are packed without them.
+        let a_zero_points =
+            packing::int8::tile_a_zero_points(a_quant.map(|q| q.zero_point), a_meta);
+        let b_zero_points =
+            packing::int8::tile_b_zero_points(b_quant.map(|q| q.zero_point), b_meta);
 
         const NR_REGS: usize = Avx512Int8Kernel::NR / AVX512_X32_LANES;
         if let Some(vnni_dot) = self.vnni_dot {
@@ -864,8 +878,8 @@ unsafe impl Kernel<u8, i8, i32> for Avx512Int8Kernel {
                 used_cols,
                 depth,
                 beta != 0, // accumulate
-                a_meta.zero_points,
-                b_meta.zero_points,
+                a_zero_points,
+                b_zero_points,
                 &a_meta.row_sums,
                 &b_meta.col_sums,
                 vnni_dot,
@@ -881,8 +895,8 @@ unsafe impl Kernel<u8, i8, i32> for Avx512Int8Kernel {
                 used_cols,
                 depth,
                 beta != 0, // accumulate
-                a_meta.zero_points,
-                b_meta.zero_points,
+                a_zero_points,
+                b_zero_points,
                 &a_meta.row_sums,
                 &b_meta.col_sums,
                 self.isa, // Use non-VNNI dot product
